@@ -9,7 +9,7 @@ from common import SPEC, ROOT, ToolError, corrupt_trace
 GUARDS = ["GStrictBefore", "GEstBlocks", "GValEst", "GValVersion", "GValStorage", "GTsBeforeScan", "GRewindNew",
           "GRewindConflict", "GMarkEstimate", "GRemoveStale", "GFinStatus", "GFinCursor", "GFinTs", "GFinCarry",
           "GCommitOrder", "GHeadOnly", "GNotifyFin", "GNotifyCom", "GNotifyBatch", "GNotifyCancel", "GKeyLive",
-          "GCommitRelease", "GFallbackStart", "GHeadAtStart"]
+          "GCommitRelease", "GFallbackStart", "GHeadAtStart", "GResetMasks", "GCreatedWins"]
 SAFETY = ["TypeOK", "CommitMatchesRef", "CommittedIsPrefix", "CommittedReadsFresh", "FinalOk", "FinalityFresh"]
 TRACE_INVS = ["TypeOK", "CommittedReadsFresh", "FinalityFresh", "CommitMatchesRef"]
 WITNESS_DIR = os.path.join(SPEC, "witness")
@@ -22,7 +22,10 @@ def blocks():
 def block_tla(b):
     progs = "<<" + ", ".join("<<" + ", ".join(tlc.tla(i) for i in p) + ">>" for p in b["progs"]) + ">>"
     pre = "[" + ", ".join(f"{k} |-> {v}" for k, v in b["pre"].items()) + "]"
-    return f'[n |-> {b["n"]}, locs |-> {tlc.tla(set(b["locs"]))}, pre |-> {pre}, progs |-> {progs}]'
+    extra = ""
+    if "resetOf" in b:
+        extra = ", resetOf |-> [" + ", ".join(f'{l} |-> "{b["resetOf"].get(l, "none")}"' for l in b["locs"]) + "]"
+    return f'[n |-> {b["n"]}, locs |-> {tlc.tla(set(b["locs"]))}, pre |-> {pre}, progs |-> {progs}{extra}]'
 
 
 def consts(off=(), workers=2, trace=False):
